@@ -296,16 +296,9 @@ Definition statement_words : list str :=
 Definition construct_name_ok (l : str) : bool :=
   negb (existsb (fun w => prefix w (lower l)) statement_words).
 
-(* spellings FORD is known to treat differently (findings; see Props/C01cascade.v): a FINAL statement
-   without "::" (3), END BLOCK DATA with other than exactly one blank between BLOCK and DATA (4), a
-   statement label on an END statement (5) *)
-Definition known_region (l : sline) : nat :=
-  match l with
-  | XFinal _ None _ _ _ => 3
-  | XEndUnit None _ _ _ bd EBlockData _ => if Nat.eqb bd 1 then 0 else 4
-  | XEnd (Some _) _ | XEndUnit (Some _) _ _ _ _ _ _ => 5
-  | _ => 0
-  end.
+(* a statement label: digits *)
+Definition label_ok (lab : option (str * nat)) : bool :=
+  match lab with Some (digits, _) => nonempty digits && forallb is_digit digits | None => true end.
 
 (* the conditions on the parts of a line, whatever its spelling *)
 Definition line_shape_ok (l : sline) : bool :=
@@ -322,10 +315,10 @@ Definition line_shape_ok (l : sline) : bool :=
   | XBlock (Some (l, _, _)) _ => construct_name_ok l
   (* a C binding is looked for behind the arguments of a function statement *)
   | XFunction _ _ _ _ _ _ _ (Some (_, _, _, r)) => negb (has_sub (s "bind") (lower r))
+  | XEnd lab _ | XEndUnit lab _ _ _ _ _ _ => label_ok lab
   | _ => true
   end.
-(* ... and the spelling is none of those FORD is known to treat differently *)
-Definition line_ok (l : sline) : bool := line_shape_ok l && Nat.eqb (known_region l) 0.
+Definition line_ok (l : sline) : bool := line_shape_ok l.
 
 (* where a statement may stand: the state of the enclosing container *)
 Definition is_iface (k : ckind) : bool := match k with KInterface => true | _ => false end.
@@ -333,7 +326,6 @@ Definition calls_kind (k : ckind) : bool :=
   match k with KProgram | KSubroutine | KFunction | KModProcImpl => true | _ => false end.
 Definition place_ok (k : ckind) (incontains level0 : bool) (l : sline) : bool :=
   match l with
-  | XProgram _ _ => match k with KFile => true | _ => false end
   | XType _ _ _ | XEnum _ _ _ _ _ _ _ | XInterface _ _ | XAbstract _ _ _ | XDecl _ _ _ _ _ | XEnumerator _ _ _ _ => level0
   | XBound _ _ _ _ _ _ _ _ | XFinal _ _ _ _ _ => incontains
   | XModProcRef _ _ _ _ _ _ _ => is_iface k
